@@ -60,6 +60,7 @@ pub fn step(wide: bool) -> BoxedStrategy<Step> {
             1 => Just(Step::RevCollect),
             1 => Just(Step::Search),
             1 => Just(Step::FindMid),
+            1 => (0u16..6, any::<bool>()).prop_map(|(k, b)| Step::PanicSearch(k, b)),
             1 => Just(Step::RFindMid),
             1 => Just(Step::RFold),
             1 => Just(Step::RevLast),
@@ -244,7 +245,7 @@ pub fn case(p: Prop, max_ops: usize) -> BoxedStrategy<Case> {
             let len = (l as u32 * (n + 1)) >> 16;
             let _ = Fault { kind: FaultKind::Drop, k: 0, op_index: 0 };
             let fault_pick = fault.map(|(kind, k, at)| (kind, at, (k as u16).wrapping_mul(5461)));
-            Case { n, ctor, route, start, len, fill, fault: None, fault_pick, ops, salt, unwinding: salt % 8 == 0 }
+            Case { n, ctor, route, start, len, fill, fault: None, fault_pick, ops, salt, unwinding: salt % 8 == 0, vals: if (salt >> 3) % 3 == 0 { ((salt >> 5) % 5) as u8 } else { 0 } }
         })
         .boxed()
 }
